@@ -17,8 +17,15 @@ import (
 )
 
 func init() {
-	register("C01", "model_checking", func(r *ev.Run) { ctlCampaign(r, "C01") })
-	register("C06", "model_checking", func(r *ev.Run) { ctlCampaign(r, "C06") })
+	register("C01", "model_checking", func(r *ev.Run) {
+		ctlCampaign(r, "C01")
+		repoTestsLeg(r, "C01")
+		freeRunLeg(r, "C01", map[string]int{"quick": 300, "thorough": 3000}[r.Tier])
+	})
+	register("C06", "model_checking", func(r *ev.Run) {
+		ctlCampaign(r, "C06")
+		freeRunLeg(r, "C06", map[string]int{"quick": 300, "thorough": 3000}[r.Tier])
+	})
 }
 
 func labels(steps []brk.CtlStep) []string {
